@@ -346,15 +346,15 @@ func (vm *VM) equals(a, b *Item) bool {
 // mismatch) and decides from the totals. Where the outcome would depend on
 // the order in which pairs are visited (a mismatch exists AND a budget could
 // be exhausted before it is found), on the exact off-by-one of the pair
-// budget, or on whether the size budget is shared by nested structs, the run
-// is flagged undetermined.
+// budget, or on how the size budget is charged (outermost pair, nested
+// structs), the run is flagged undetermined.
 func (vm *VM) structEquals(a, b *Item) bool {
 	if b.T != TStruct {
 		return false
 	}
 	const cap = 3 * MaxStackSize
-	allEqual, nested := true, false
-	pairs, cost := 0, 0
+	allEqual := true
+	pairs, cost, maxLevel := 0, 0, 0
 	type pr struct {
 		x, y  *Item
 		depth int
@@ -393,12 +393,19 @@ func (vm *VM) structEquals(a, b *Item) bool {
 				allEqual = false
 				continue
 			}
-			if p.depth > 0 {
-				nested = true
-			}
+			level := 0 // cost of the direct elements of this struct pair
 			for i := range x.Elems {
 				work = append(work, pr{x.Elems[i], y.Elems[i], p.depth + 1})
+				c := 1
+				if x.Elems[i].T == TByteString {
+					c = max(c, len(x.Elems[i].Data))
+					if y.Elems[i].T == TByteString {
+						c = max(c, len(y.Elems[i].Data))
+					}
+				}
+				level += c
 			}
+			maxLevel = max(maxLevel, level)
 			continue
 		}
 		if !plainEquals(x, y) {
@@ -420,8 +427,13 @@ func (vm *VM) structEquals(a, b *Item) bool {
 		fault("EQUAL: too many struct items to compare")
 	}
 	if cost > MaxComparableSize {
-		if nested {
-			vm.undet("struct-compare-size-limit-nested")
+		// `cost` charges every pair including the two structs themselves
+		// against ONE budget. Whether the outermost pair is charged and
+		// whether nested structs draw from the same budget is not stated by
+		// any text we can cite: the fault is claimed only when already the
+		// direct elements of one struct exceed the budget.
+		if maxLevel <= MaxComparableSize {
+			vm.undet("struct-compare-size-budget-reading")
 		}
 		fault("EQUAL: operand exceeds the maximum comparable size")
 	}
